@@ -391,8 +391,13 @@ def witness(conn_view, info, c2s_log, s2c_log, client_random=None,
         rc = RefConn.from_traffic_secrets(
             info, bytes.fromhex(conn_view["cl_app0"]),
             bytes.fromhex(conn_view["sr_app0"]))
+        out["key_updates"] = {"c2s": 0, "s2c": 0}
         for name, log in (("c2s", c2s_log), ("s2c", s2c_log)):
             synced = False
+            # handshake messages are reassembled before they are looked at:
+            # with a small record_size_limit a NewSessionTicket spans several
+            # records and a continuation fragment may begin with octet 0x18
+            hs = b""
             for (t, v, body) in split_records(log):
                 if t is None:
                     out["errors"].append((name, "partial trailing record"))
@@ -407,8 +412,15 @@ def witness(conn_view, info, c2s_log, s2c_log, client_random=None,
                     continue
                 synced = True
                 out[name].append((ct, pt, il, len(body)))
-                if ct == 22 and pt[:1] == b"\x18":     # KeyUpdate
-                    rc.key_update(name)
+                if ct == 22:
+                    hs += pt
+                    while len(hs) >= 4 and \
+                            len(hs) >= 4 + int.from_bytes(hs[1:4], "big"):
+                        mt = hs[0]
+                        hs = hs[4 + int.from_bytes(hs[1:4], "big"):]
+                        if mt == 0x18 and not hs:        # KeyUpdate
+                            out["key_updates"][name] += 1
+                            rc.key_update(name)
         return out
     rc = RefConn.from_master(info, version, conn_view["etm"],
                              bytes.fromhex(conn_view["ms"]), client_random,
